@@ -10,4 +10,4 @@ RULE = ("schema-free part on packages generated from the repository schemas: for
 def run(ctx):
     codec.simple_check(ctx, "c06", RULE, [("types", "types", 150), ("documents", "documents", 4000), ("numbers-as-strings documents", "alt_numbers_as_strings", 2000),
                                           ("duplicate-key documents", "reject_duplicate-key", 1500), ("unknown-key documents", "reject_unknown-key", 1500)],
-                       40, 300, count_keys=("documents",))
+                       40, 300, count_keys=("documents",), random_quick=2, random_thorough=20)
